@@ -624,3 +624,73 @@ def sweep(u: Unit):
     execution shared with C06: `*.sets_on_the_copy_only`, `*.same_structure`)."""
     from . import C06
     C06.deepcopy_unit(u)
+
+
+# ---- run-time overrides: every (key, value) reaches the setting it names -------------------------------------------------------------------
+OVERRIDE_REPLAY = lambda w: {"code": """
+import verif_probes as VP, pyxel
+from pyxel.run import apply_overrides
+from pyxel.exposure import Exposure, Readout
+from pyxel.pipelines import DetectionPipeline, ModelFunction, Processor
+VIOLATED, DETAIL = False, 'every override reaches the setting it names, whatever its value'
+det = VP.detector(quantum_efficiency=0.5)
+pipe = DetectionPipeline(photon_collection=[ModelFunction(func='verif_probes.probe', name='illum', arguments={'level': 5, 'flag': True}),
+                                            ModelFunction(func='verif_probes.probe', name='other', arguments={'level': 2})])
+proc = Processor(detector=det, pipeline=pipe); mode = Exposure(readout=Readout(times=[1.0, 2.0]))
+over = {'pipeline.photon_collection.other.enabled': False, 'pipeline.photon_collection.illum.arguments.level': 0, 'pipeline.photon_collection.illum.arguments.flag': False,
+        'detector.characteristics.quantum_efficiency': 0.0, 'exposure.readout.non_destructive': True}
+apply_overrides(overrides=over, processor=proc, mode=mode)
+got = {'enabled': pipe.photon_collection.other.enabled, 'level': pipe.photon_collection.illum.arguments['level'], 'flag': pipe.photon_collection.illum.arguments['flag'],
+       'qe': det.characteristics.quantum_efficiency, 'nd': mode.readout.non_destructive}
+if got != {'enabled': False, 'level': 0, 'flag': False, 'qe': 0.0, 'nd': True}:
+    VIOLATED, DETAIL = True, f'after the overrides {over}: settings {got}'
+try:
+    apply_overrides(overrides={'exposure.readout.no_such_setting': 1}, processor=proc, mode=mode); VIOLATED, DETAIL = True, 'an override of a setting that does not exist was accepted'
+except (AttributeError, KeyError):
+    pass
+""", "expect": "apply_overrides sets every named setting to the given value (False / 0 / 0.0 included); unknown settings are refused"}
+
+
+@unit("C08", "overrides")
+def overrides_unit(u: Unit):
+    """pyxel.run.apply_overrides (the override_dct of run_mode and the command line): for EVERY value — falsy ones included — an override
+    whose key starts with the running mode's name is assigned to that attribute of the mode (refused when it does not exist), every
+    other override is handed to Processor.set(key, value) (units set.* / has.*), each exactly once, in order."""
+    fi = u.fn("pyxel/run.py::apply_overrides")
+    cfg = Cfg("real")
+    PRQ = "pyxel/pipelines/processor.py"
+    sets = []
+    cfg.contracts[f"{PRQ}::Processor.set"] = Contract(f"{PRQ}::Processor.set", lambda ex, args, kwargs, fr: (ex.hold["sets"].append((kwargs.get("key", args[1] if len(args) > 1 else None),
+                                                                                                                          kwargs.get("value", args[2] if len(args) > 2 else None))), NONE)[1], "set.*")
+
+    def get_obj_att(ex, args, kwargs, fr):
+        obj, key = kwargs.get("obj", args[0] if args else None), kwargs.get("key", args[1] if len(args) > 1 else None)
+        ex.hold["walk"].append((obj, key))
+        return VTuple([ex.hold["target"], VStr("setting")])
+    cfg.contracts[f"{PRQ}::_get_obj_att"] = Contract(f"{PRQ}::_get_obj_att", get_obj_att, "has.* (key walk)")
+
+    def setup(ex):
+        h = ex.hold = {"sets": [], "walk": []}
+        h["target"] = ex.st.alloc(HObj("modepart", {"setting": VInt(1)} if ex.st.branch(z3.Bool("setting_exists")) else {}))
+        h["mode"] = VOpaque("xr", None, {"label": "mode", "truthy": True})
+        h["proc"] = VSym(u.cls(f"{PRQ}::Processor"), z3.Int("processor"))
+        # values of any kind, falsy ones included
+        h["vals"] = [VBool(z3.Bool("flag_value")), VInt(z3.Int("int_value")), VFloat(z3.Real("real_value"))]
+        over = ex.st.alloc(HDict([(VStr("pipeline.photon_collection.m.enabled"), h["vals"][0]), (VStr("exposure.readout.setting"), h["vals"][1]),
+                                  (VStr("detector.characteristics.quantum_efficiency"), h["vals"][2])]))
+        return [], {"overrides": over, "processor": h["proc"], "mode": h["mode"]}
+    ps = u.paths(fi, setup, cfg, label="apply_overrides")
+    for p in ps:
+        h = p.ex.hold
+        exists = z3.Bool("setting_exists")
+        if p.kind != "return":
+            u.oblige(p, "overrides.refuses_only_unknown_mode_settings", z3.And(z3.Not(exists), zb(p.exc_name() == "AttributeError")), {"exc": p.exc_name()}, OVERRIDE_REPLAY)
+            continue
+        ok_sets = len(h["sets"]) == 2 and [str(getattr(k, "v", k)) for k, _ in h["sets"]] == ["pipeline.photon_collection.m.enabled", "detector.characteristics.quantum_efficiency"] \
+            and h["sets"][0][1] is h["vals"][0] and h["sets"][1][1] is h["vals"][2]
+        u.oblige(p, "overrides.every_processor_setting_is_set_to_its_value", bool(ok_sets), {"sets": len(h["sets"]), "flag_value": z3.Bool("flag_value"), "real_value": z3.Real("real_value")}, OVERRIDE_REPLAY)
+        tgt = p.st.cell(h["target"]).fields
+        ok_mode = len(h["walk"]) == 1 and h["walk"][0][0] is h["mode"] and str(getattr(h["walk"][0][1], "v", "")) == "readout.setting" and tgt.get("setting") is h["vals"][1]
+        u.oblige(p, "overrides.mode_setting_assigned", z3.And(exists, zb(bool(ok_mode))), {"int_value": z3.Int("int_value")}, OVERRIDE_REPLAY)
+    u.cover("overrides.cover", ps, lambda p: p.kind == "return")
+    u.cover("overrides.cover_refusal", ps, lambda p: p.kind == "raise")
